@@ -148,7 +148,7 @@ PROPS = {
         "timeout": 1500,
     },
     "C17": {
-        "lean_modules": ["JrpcProofs.Props.C17", "JrpcProofs.Facts.Keepalive", "JrpcProofs.Facts.Corr", "JrpcProofs.Facts.Options", "JrpcProofs.Facts.Stream"],
+        "lean_modules": ["JrpcProofs.Props.C17", "JrpcProofs.Facts.Keepalive", "JrpcProofs.Facts.Corr", "JrpcProofs.Facts.Options", "JrpcProofs.Facts.Stream", "JrpcProofs.Trans.Deadline"],
         "assumptions": [
             "G (largest gap between peer activities seen by this endpoint) and E (local latency between an activity, or a passed deadline, and the library acting on it; includes the time the main loop spends reading one frame) are environment parameters of the model, explicit guards of `tick`; the scenarios run with small ones",
             "a peer that answers pings gives G <= P + round trip: that the library's own ping handler does answer is tied by the healthy-link scenarios against every server ping setting (F10), not by a theorem",
